@@ -290,4 +290,168 @@ Section CtlProofs.
       destruct (ss_client s) as [[cm ctr]|]; [|discriminate].
       injection H as <- <-. cbn. rewrite ctl_find_update_same by reflexivity. rewrite Ef. cbn. destruct vs; reflexivity.
   Qed.
+  (* ---- whole schedules: how many responses of session t went out for each of the two parties ---- *)
+  Definition ctl_sent (role : ctl_role) (pc : ctl_pc) : Z :=
+    match pc with
+    | PcSend v c => match role with ToVisitor => if v then 1 else 0 | ToClient => if c then 1 else 0 end
+    | PcSleep | PcDoneComplete => 1
+    | _ => 0
+    end.
+  Definition ctl_role_eqb (a b : ctl_role) : bool :=
+    match a, b with ToVisitor, ToVisitor | ToClient, ToClient => true | _, _ => false end.
+  Fixpoint ctl_cnt (role : ctl_role) (t : Z) (outs : list ctl_out) : Z :=
+    match outs with
+    | [] => 0
+    | OutResp t' r' _ _ :: r => (if (t' =? t) && ctl_role_eqb r' role then 1 else 0) + ctl_cnt role t r
+    | _ :: r => ctl_cnt role t r
+    end.
+  Definition ctl_sent_of (role : ctl_role) (t : Z) (st : ctl_state) : Z :=
+    match ctl_find t (st_sess st) with Some s => ctl_sent role (ss_pc s) | None => 0 end.
+  Definition ctl_counts_ok (st : ctl_state) (outs : list ctl_out) : Prop :=
+    forall role t, ctl_cnt role t outs = ctl_sent_of role t st.
+
+  Lemma ctl_sent_bounds role pc : 0 <= ctl_sent role pc <= 1.
+  Proof. destruct pc as [| | |[] []| | |], role; cbn; lia. Qed.
+
+  Lemma ctl_cnt_app role t a b : ctl_cnt role t (a ++ b) = ctl_cnt role t a + ctl_cnt role t b.
+  Proof. induction a as [|[] r IH]; cbn; try assumption; lia. Qed.
+
+  Lemma ctl_find_update t' t f l :
+    (forall x, ss_sid (f x) = ss_sid x) ->
+    ctl_find t' (ctl_update t f l) = if t' =? t then option_map f (ctl_find t l) else ctl_find t' l.
+  Proof.
+    intros Hf. induction l as [|x r IH]; cbn; [destruct (t' =? t); reflexivity|].
+    destruct (ss_sid x =? t) eqn:E.
+    - rewrite Hf. destruct (t' =? t) eqn:E2.
+      + assert (ss_sid x =? t' = true) as -> by lia. reflexivity.
+      + assert (ss_sid x =? t' = false) as -> by lia. rewrite IH, E2. reflexivity.
+    - destruct (t' =? t) eqn:E2.
+      + assert (ss_sid x =? t' = false) as -> by lia. rewrite IH, E2. reflexivity.
+      + destruct (ss_sid x =? t'); [reflexivity|]. rewrite IH, E2. reflexivity.
+  Qed.
+
+  Lemma ctl_find_snoc t l s :
+    ctl_find t (l ++ [s]) = match ctl_find t l with Some x => Some x | None => if ss_sid s =? t then Some s else None end.
+  Proof. induction l as [|x r IH]; cbn; [reflexivity|]. destruct (ss_sid x =? t); [reflexivity|exact IH]. Qed.
+
+  Lemma ctl_find_fresh n l t : Forall (fun s => ss_sid s < n) l -> n <= t -> ctl_find t l = None.
+  Proof.
+    induction 1 as [|x r Hx Hr IH]; intros Ht; cbn; [reflexivity|].
+    destruct (ss_sid x =? t) eqn:E; [lia|]. now apply IH.
+  Qed.
+
+  Lemma ctl_counts_update st outs t s f o an :
+    ctl_counts_ok st outs -> ctl_find t (st_sess st) = Some s -> (forall x, ss_sid (f x) = ss_sid x) ->
+    (forall role, ctl_cnt role t o = ctl_sent role (ss_pc (f s)) - ctl_sent role (ss_pc s)) ->
+    (forall role t', t' <> t -> ctl_cnt role t' o = 0) ->
+    ctl_counts_ok {| st_cfgs := st_cfgs st; st_alive := st_alive st; st_next_chan := st_next_chan st; st_next_sid := st_next_sid st;
+                     st_sess := ctl_update t f (st_sess st); st_an := an |} (outs ++ o).
+  Proof.
+    intros Hc Ef Hf H1 H2 role t'. rewrite ctl_cnt_app. unfold ctl_sent_of; cbn. rewrite ctl_find_update by exact Hf.
+    specialize (Hc role t'). unfold ctl_sent_of in Hc. destruct (t' =? t) eqn:E.
+    - assert (t' = t) by lia. subst t'. rewrite Ef in *. cbn. rewrite H1. lia.
+    - rewrite H2 by lia. lia.
+  Qed.
+
+  Lemma ctl_counts_same_sess st st' outs :
+    ctl_counts_ok st outs -> st_sess st' = st_sess st -> ctl_counts_ok st' (outs ++ []).
+  Proof. intros H E role t. rewrite app_nil_r. unfold ctl_sent_of. rewrite E. apply H. Qed.
+
+  Lemma ctl_step_counts st e st' o outs :
+    ctl_inv st -> ctl_counts_ok st outs -> ctl_step D auth st e = Some (st', o) -> ctl_counts_ok st' (outs ++ o).
+  Proof.
+    intros Hinv Hc H. pose proof Hinv as [H1 [H2 [H3 H4]]]. destruct e; cbn in H.
+    - destruct (ctl_find_cfg name (st_cfgs st)); injection H as <- <-; intros role t; rewrite ctl_cnt_app; cbn; rewrite Z.add_0_r; apply Hc.
+    - injection H as <- <-. now apply ctl_counts_same_sess.
+    - (* Visitor *)
+      destruct (ctl_session_only_if_signed_and_live st vm tr user st' o H)
+        as [[E [e [-> _]]]|(cfg & s & _ & _ & _ & _ & _ & E & Hsid & _ & _ & _ & Ht & Hp & ->)].
+      + intros role t. rewrite ctl_cnt_app. cbn. unfold ctl_sent_of. rewrite E, Z.add_0_r. apply Hc.
+      + intros role t. rewrite app_nil_r. unfold ctl_sent_of. rewrite E, ctl_find_snoc.
+        specialize (Hc role t). unfold ctl_sent_of in Hc.
+        destruct (ctl_find t (st_sess st)) as [x|] eqn:Ef; [exact Hc|].
+        destruct (ss_sid s =? t); [rewrite Hp; cbn; exact Hc|exact Hc].
+    - (* Deliver *)
+      destruct (ctl_find t (st_sess st)) as [s|] eqn:Ef; [|discriminate].
+      destruct (ss_pc s) eqn:Ep; try discriminate. destruct (ctl_zin (ss_chan s) (st_alive st)); [|discriminate].
+      injection H as <- <-. apply (ctl_counts_update st outs t s); try assumption; try reflexivity.
+      intros role; cbn. rewrite Ep. destruct role; reflexivity.
+    - (* GiveUp *)
+      destruct (ctl_find t (st_sess st)) as [s|] eqn:Ef; [|discriminate].
+      destruct (ss_pc s) eqn:Ep; try discriminate.
+      injection H as <- <-. apply (ctl_counts_update st outs t s); try assumption; try reflexivity.
+      intros role; cbn. rewrite Ep. destruct role; reflexivity.
+    - (* Client *)
+      destruct (ctl_parse_sid (cm_sid cm)) as [t|]; [|injection H as <- <-; now apply ctl_counts_same_sess].
+      unfold ctl_lookup in H. destruct (ctl_find t (st_sess st)) as [s|] eqn:Ef; [|injection H as <- <-; now apply ctl_counts_same_sess].
+      destruct (ss_in_table s); injection H as <- <-; [|now apply ctl_counts_same_sess].
+      apply (ctl_counts_update st outs t s); try assumption; try reflexivity. intros role; cbn. lia.
+    - (* Wake *)
+      destruct (ctl_find t (st_sess st)) as [s|] eqn:Ef; [|discriminate].
+      destruct (ss_pc s) eqn:Ep; try discriminate. destruct (ss_token s); [|discriminate].
+      injection H as <- <-. apply (ctl_counts_update st outs t s); try assumption; try reflexivity.
+      intros role; cbn. rewrite Ep. destruct role; reflexivity.
+    - (* Timeout *)
+      destruct (ctl_find t (st_sess st)) as [s|] eqn:Ef; [|discriminate].
+      destruct (ss_pc s) eqn:Ep; try discriminate.
+      injection H as <- <-. apply (ctl_counts_update st outs t s); try assumption; try reflexivity.
+      intros role; cbn. rewrite Ep. destruct role; reflexivity.
+    - (* Analyse *)
+      destruct (ctl_find t (st_sess st)) as [s|] eqn:Ef; [|discriminate].
+      destruct (ss_pc s) eqn:Ep; try discriminate. destruct (ss_client s) as [[cm ctr]|] eqn:Ec; [|discriminate].
+      destruct (nh_analysis D (st_an st) (ctl_sid_bytes t) (ss_vmsg s) cm); try discriminate; injection H as <- <-;
+        apply (ctl_counts_update st outs t s); try assumption; try reflexivity;
+        intros role; cbn; rewrite Ep; destruct role; reflexivity.
+    - (* SendV *)
+      destruct (ctl_find t (st_sess st)) as [s|] eqn:Ef; [|discriminate].
+      destruct (ss_pc s) as [| | |[] cs| | |] eqn:Ep; try discriminate. destruct (ss_resps s) as [[rv rc]|]; [|discriminate].
+      injection H as <- <-. apply (ctl_counts_update st outs t s); try assumption; try reflexivity.
+      + intros role; cbn. rewrite Ep, Z.eqb_refl. destruct role, cs; reflexivity.
+      + intros role t' Hne; cbn. assert (t =? t' = false) as -> by lia. reflexivity.
+    - (* SendC *)
+      destruct (ctl_find t (st_sess st)) as [s|] eqn:Ef; [|discriminate].
+      destruct (ss_pc s) as [| | |vs []| | |] eqn:Ep; try discriminate. destruct (ss_resps s) as [[rv rc]|]; [|discriminate].
+      destruct (ss_client s) as [[cm ctr]|]; [|discriminate].
+      injection H as <- <-. apply (ctl_counts_update st outs t s); try assumption; try reflexivity.
+      + intros role; cbn. rewrite Ep, Z.eqb_refl. destruct role, vs; reflexivity.
+      + intros role t' Hne; cbn. assert (t =? t' = false) as -> by lia. reflexivity.
+    - (* SleepDone *)
+      destruct (ctl_find t (st_sess st)) as [s|] eqn:Ef; [|discriminate].
+      destruct (ss_pc s) eqn:Ep; try discriminate.
+      injection H as <- <-. apply (ctl_counts_update st outs t s); try assumption; try reflexivity.
+      intros role; cbn. rewrite Ep. destruct role; reflexivity.
+    - (* Report *)
+      destruct (ctl_parse_sid sid) as [t|]; [|injection H as <- <-; now apply ctl_counts_same_sess].
+      destruct (ctl_lookup t (st_sess st)) as [s|]; [|injection H as <- <-; now apply ctl_counts_same_sess].
+      destruct success; [|injection H as <- <-; now apply ctl_counts_same_sess].
+      destruct (ss_reco s) as [[[k m] i]|]; injection H as <- <-; now apply ctl_counts_same_sess.
+  Qed.
+
+  Lemma ctl_run_counts evs : forall st acc,
+    ctl_inv st -> ctl_counts_ok st acc ->
+    ctl_counts_ok (fst (ctl_run D auth st evs)) (acc ++ snd (ctl_run D auth st evs)).
+  Proof.
+    induction evs as [|e r IH]; intros st acc Hst Hc; cbn; [now rewrite app_nil_r|].
+    destruct (ctl_step D auth st e) as [[st' o]|] eqn:E.
+    - specialize (IH st' (acc ++ o) (ctl_step_inv _ _ _ _ Hst E) (ctl_step_counts _ _ _ _ _ Hst Hc E)).
+      destruct (ctl_run D auth st' r) as [st'' o']. cbn in *. now rewrite app_assoc.
+    - apply IH; assumption.
+  Qed.
+
+  (* every schedule from the initial state: per session and per party, the number of responses sent is 0 or 1,
+     it is 1 for both parties once the exchange completed and 0 for both after a timeout *)
+  Lemma ctl_responses_per_session evs t role :
+    let st := fst (ctl_run D auth ctl_init evs) in let outs := snd (ctl_run D auth ctl_init evs) in
+    0 <= ctl_cnt role t outs <= 1 /\
+    forall s, ctl_find t (st_sess st) = Some s ->
+      (ss_pc s = PcSleep \/ ss_pc s = PcDoneComplete -> ctl_cnt role t outs = 1) /\
+      (ss_pc s = PcDoneTimeout \/ ss_pc s = PcNotify \/ ss_pc s = PcWait \/ ss_pc s = PcAnalyse -> ctl_cnt role t outs = 0).
+  Proof.
+    cbn. pose proof (ctl_run_counts evs ctl_init [] ctl_inv_init (fun _ _ => eq_refl) role t) as H. cbn in H.
+    rewrite H. unfold ctl_sent_of. destruct (ctl_find t (st_sess (fst (ctl_run D auth ctl_init evs)))) as [s|].
+    - split; [apply ctl_sent_bounds|]. intros s' [= <-]. split.
+      + intros [->| ->]; reflexivity.
+      + intros [->|[->|[->| ->]]]; reflexivity.
+    - split; [lia|discriminate].
+  Qed.
 End CtlProofs.
